@@ -7,6 +7,8 @@ type nat =
 | O
 | S of nat
 
+val option_map : ('a1 -> 'a2) -> 'a1 option -> 'a2 option
+
 type ('a, 'b) sum =
 | Inl of 'a
 | Inr of 'b
@@ -1579,6 +1581,131 @@ val strip_prefix : string -> string -> string option
 
 val curve_bits : string -> n option
 
+type tlsCipherKx =
+| KxNull
+| KxPsk
+| KxKrb5
+| KxSrp
+| KxRsa
+| KxDh
+| KxDhe
+| KxEcdh
+| KxEcdhe
+| KxAecdh
+| KxEccpwd
+| KxTls13
+
+type tlsCipherAu =
+| AuNull
+| AuPsk
+| AuKrb5
+| AuSrp
+| AuSrp_Dss
+| AuSrp_Rsa
+| AuDss
+| AuRsa
+| AuDhe
+| AuEcdsa
+| AuEccpwd
+| AuTls13
+
+type tlsCipherEnc =
+| EncNull
+| EncDes
+| EncTripleDes
+| EncRc2
+| EncRc4
+| EncAria
+| EncIdea
+| EncSeed
+| EncAes
+| EncCamellia
+| EncChacha20_Poly1305
+| EncSm4
+| EncAegis
+
+type tlsCipherEncMode =
+| ModeNull
+| ModeCbc
+| ModeCcm
+| ModeGcm
+
+type tlsCipherMac =
+| MacNull
+| MacHmacMd5
+| MacHmacSha1
+| MacHmacSha256
+| MacHmacSha384
+| MacHmacSha512
+| MacAead
+
+type tlsPRF =
+| PrfDefault
+| PrfNull
+| PrfMd5AndSha1
+| PrfSha1
+| PrfSha256
+| PrfSha384
+| PrfSha512
+| PrfSm3
+
+type cipher_row = { c_id : n; c_name : string; c_kx : tlsCipherKx;
+                    c_au : tlsCipherAu; c_enc : tlsCipherEnc;
+                    c_mode : tlsCipherEncMode; c_enc_size : n;
+                    c_mac : tlsCipherMac; c_mac_size : n; c_prf : tlsPRF;
+                    c_impl_key_size : n; c_impl_block_size : n;
+                    c_impl_mac_length : n }
+
+val impl_rows : cipher_row list
+
+val impl_values_order : n list
+
+val find_id : n -> cipher_row list -> cipher_row option
+
+val from_id : n -> cipher_row option
+
+val values : cipher_row list
+
+val from_name : string -> cipher_row option
+
+val enc_key_size : cipher_row -> n
+
+val enc_block_size : cipher_row -> n
+
+val mac_length : cipher_row -> n
+
+val txt_rows : string list list
+
+val hexval : ascii -> n option
+
+val parse_hex : string -> n -> n option
+
+val parse_decs : string -> n -> n option
+
+val nonempty : string -> bool
+
+val assoc_s : string -> (string * 'a1) list -> 'a1 option
+
+val kx_tokens : (string * tlsCipherKx) list
+
+val au_tokens : (string * tlsCipherAu) list
+
+val enc_tokens : (string * tlsCipherEnc) list
+
+val mode_tokens : (string * tlsCipherEncMode) list
+
+val mac_tokens : (string * tlsCipherMac) list
+
+val prf_tokens : (string * tlsPRF) list
+
+val interp_row : string list -> cipher_row option
+
+val interp_all : string list list -> cipher_row list option
+
+val block_spec : tlsCipherEnc -> n
+
+val iana2026 : cipher_row list
+
 val qs : string option -> byte list
 
 val show_bool : bool -> byte list
@@ -1596,6 +1723,30 @@ val spec_sig_line : byte list list -> byte list
 val run_keybits_line : byte list list -> byte list
 
 val spec_keybits_line : byte list list -> byte list
+
+val run_from_name_line : byte list list -> byte list
+
+val spec_from_name_line : byte list list -> byte list
+
+val kx_name : tlsCipherKx -> string
+
+val au_name : tlsCipherAu -> string
+
+val enc_name : tlsCipherEnc -> string
+
+val mode_name : tlsCipherEncMode -> string
+
+val mac_name : tlsCipherMac -> string
+
+val prf_name : tlsPRF -> string
+
+val show_row : cipher_row -> n -> n -> n -> byte list
+
+val run_cipher_line : byte list list -> byte list
+
+val spec_sizes : cipher_row -> byte list
+
+val spec_cipher_line : byte list list -> byte list
 
 val all_entries : (string * entry_fn) list
 
